@@ -137,4 +137,26 @@ PROPS = {
         trusted_base=["Sphinx 8.2.3 inventory loader (oracle)"],
         technique="bounded differential stand-in against Sphinx's loader + enumeration of read schedules - no contract discharged for this module yet",
     ),
+    "C01": dict(
+        level="other",
+        contracts=["contracts.options"],
+        flow=["checks.flow_exc:run"],
+        harness=True,
+        explanation=(
+            "Totality of the whole pipeline is NOT decidable by contracts on MyST alone (markdown-it, docutils transforms, "
+            "Sphinx, Jinja and pygments are external).  What is decided: (1) PROVED (pyvc, all strings): the directive-option "
+            "tokenizer raises nothing but TokenizeError and terminates (all of parsers/options.py, shared with C07); "
+            "(2) PROVED modularly on the AST (one obligation per function, real exception hierarchy introspected): every "
+            "mechanism the property names contains what its callees may raise - read_topmatter, merge_file_level, "
+            "render_front_matter, _parse_directive_options, parse_directive_arguments/text, run_directive, html_to_nodes, "
+            "render_substitution, generate_heading_target, get_inventory_matches, MockIncludeDirective.run, Parser.parse, "
+            "MystParser.parse - relative to stated raise-sets of library calls (yaml.safe_load: YAMLError|ValueError; file "
+            "access: OSError|UnicodeError|ValueError|LookupError; option converters: ValueError|TypeError; Jinja: Exception; "
+            "directive.run(): DirectiveError|MockingError); calls in neither table are assumed not to raise and counted.  "
+            "(3) BOUNDED: generated documents, token soup, random valid configurations and include faults through "
+            "publish_doctree (docutils front end) - no exception may escape."
+        ),
+        assumptions=ENC,
+        trusted_base=["assumed raise-sets of PyYAML, docutils, Jinja2, pathlib (DESIGN §6)"],
+    ),
 }
